@@ -269,3 +269,47 @@ def malformed_builds(kinds):
                 yield dep_kind, how, True
             except BaseException:  # noqa: BLE001
                 yield dep_kind, how, False
+        if dep_kind != "normal-on-debug":
+            continue
+        # the dependency may also arise through a DAG called inside the DAG: its argument stubs and (with
+        # twz_active on the call) every one of its nodes come to depend on the debug node
+        for how in ("nested-arg", "nested-flag-no-params", "nested-flag-with-arg", "nested-flag-defaulted-param"):
+            a = mk("a", debug=True)
+            b = mk("b")
+            c = mk("c")
+
+            def inner0(b=b):
+                return b()
+
+            def inner1(p, b=b):
+                return b(p)
+
+            def inner1d(p=3, b=b):
+                return b(p)
+            import inspect as _inspect
+            for f_ in (inner0, inner1, inner1d):
+                f_.__qualname__ = f_.__name__
+                # the helper default `b=b` must not become a DAG parameter
+                f_.__signature__ = _inspect.Signature([p_ for n_, p_ in _inspect.signature(f_).parameters.items() if n_ != "b"])
+            try:
+                i0, i1, i1d = (threadsafe_make_dag(f_, 1, False) for f_ in (inner0, inner1, inner1d))
+            except BaseException:  # noqa: BLE001
+                continue
+
+            def describe(x, how=how, a=a, c=c, i0=i0, i1=i1, i1d=i1d):
+                src = a()
+                ok = c()
+                if how == "nested-arg":
+                    return i1(src)
+                if how == "nested-flag-no-params":
+                    return i0(twz_active=src)
+                if how == "nested-flag-with-arg":
+                    return i1(ok, twz_active=src)
+                return i1d(twz_active=src)
+            describe.__name__ = describe.__qualname__ = "describe"
+            describe.__signature__ = _inspect.Signature([_inspect.Parameter("x", _inspect.Parameter.POSITIONAL_OR_KEYWORD)])
+            try:
+                threadsafe_make_dag(describe, 1, False)
+                yield dep_kind, how, True
+            except BaseException:  # noqa: BLE001
+                yield dep_kind, how, False
